@@ -45,6 +45,13 @@ CLAIMED = {
              "padding 0-1, dilation 1-2, C,F in {1,2}. Lateral: zero diagonal of weight and delay after tensor/Parameter/expression assignment and "
              "after updater application. Helpers: like_input(like_synaptic(x)) == x on read positions; pre/post receptive views place elements as documented.",
         ref="6/C05"),
+    "C07": dict(
+        text="(i) inferno.trace_* one-step functions from an arbitrary symbolic trace (bool and real observations, tolerance on/off, first step). (ii) all "
+             "12 FoldReducer configurations (6 trace reducers, Event with inf/nan/zero initial, Passthrough, EMA, CA): T=4 (6 thorough) symbolic observations "
+             "from clear, optionally with clear(keepshape T/F) interleaved; peek/latest == closed form at every step (indicator arithmetic: polynomial "
+             "identities); dump() newest-first; view(time) with a SYMBOLIC per-element time == recorded value interpolated by the reducer's documented rule "
+             "(analytic decay / elapsed time / previous / linear), plus scalar grid times; dt in {1.0, 1.3}, duration {0,(dt),2dt}, in-place and not.",
+        ref="6/C07"),
     "C13": dict(
         text="Temporal setters (dt, duration, inclusive) on records whose contents are symbolic markers: size formula (native float arithmetic, incl. "
              "non-representable ratios), the newest min(old,new) observations stay at the same steps-before-present positions, older new slots are zero, "
